@@ -1,6 +1,7 @@
 package main
 
 import (
+	"path/filepath"
 	"fmt"
 	"go/ast"
 	"go/token"
@@ -27,6 +28,8 @@ func runC05(p *Program, r *Report) {
 	ruleR055(p, r)
 	r.Rule("R05.6", "E3", 1, "every security handler sees every statement: in AcraCensor.HandleQuery the only conditions under which a handler of the chain is skipped are the two handler-kind tests (capture, ignore); no property of the statement - parsed or not - makes the loop pass over an allow/deny/denyall handler")
 	ruleR056(p, r)
+	r.Rule("R05.7", "E3", 12, "a pattern list matches a list of the same length: in the firewall's pattern matchers every loop that walks a list of the pattern and indexes the corresponding list of the statement is preceded by a comparison of the two lengths (the one confirmed exception, the value tuple, handles a longer statement list through the %%LIST_OF_VALUES%% pattern); without it a statement with extra rows, columns or expressions is admitted by a pattern that describes only its beginning")
+	ruleR057(p, r)
 }
 
 func blocksWithCall(fn *ssa.Function, pred func(cs callSite) bool) map[*ssa.BasicBlock]bool {
@@ -675,4 +678,135 @@ func ruleR056(p *Program, r *Report) {
 
 func init() {
 	mut("C05", "unparsed statements skip every handler", "acra-censor/acra-censor_implementation.go", "		// Security checks (allow/deny handlers)\n		continueHandling, err := handler.CheckQuery(normalizedQuery, parsedQuery)", "		// Security checks (allow/deny handlers)\n		if parsedQuery == nil {\n			continue\n		}\n		continueHandling, err := handler.CheckQuery(normalizedQuery, parsedQuery)", "R05.6", "skipped only by kind")
+}
+
+// ---- R05.7
+var r057Confirmed = map[string]string{
+	"acra-censor/common.areEqualValTuple": "the value tuple: a statement tuple longer than the pattern is accepted only when the last pattern value is %%LIST_OF_VALUES%% (tested after the loop under len(query) > len(pattern)); a shorter one fails inside the loop",
+}
+
+func ruleR057(p *Program, r *Report) {
+	// identity of a list value: the same SSA value, the same type assertion of the same operand, or a load of the same field of the same object
+	var key func(v ssa.Value) string
+	key = func(v ssa.Value) string {
+		switch x := v.(type) {
+		case *ssa.ChangeType:
+			return key(x.X)
+		case *ssa.TypeAssert:
+			return "assert(" + key(x.X) + "," + x.AssertedType.String() + ")"
+		case *ssa.Extract:
+			return "extract(" + key(x.Tuple) + fmt.Sprint(x.Index) + ")"
+		case *ssa.UnOp:
+			if fa, ok := x.X.(*ssa.FieldAddr); ok {
+				return "field(" + key(fa.X) + "," + fmt.Sprint(fa.Field) + ")"
+			}
+		case *ssa.Field:
+			return "field(" + key(x.X) + "," + fmt.Sprint(x.Field) + ")"
+		}
+		return fmt.Sprintf("%p", v)
+	}
+	n := 0
+	for _, fn := range p.SrcFuncs("acra-censor/common") {
+		if filepath.Base(p.FileOf(fn.Pos())) != "matching_logic.go" || fn.Blocks == nil {
+			continue
+		}
+		// loop bounds: idx < len(P) used by an If
+		type loop struct {
+			idx ssa.Value
+			p   ssa.Value
+		}
+		var loops []loop
+		for _, b := range fn.Blocks {
+			for _, in := range b.Instrs {
+				bo, ok := in.(*ssa.BinOp)
+				if !ok || bo.Op != token.LSS || len(ifsOn(bo)) == 0 {
+					continue
+				}
+				if pl, isLen := isLenCall(bo.Y); isLen {
+					loops = append(loops, loop{bo.X, pl})
+				}
+			}
+		}
+		lenEq := func(q, pl ssa.Value, at *ssa.BasicBlock) bool {
+			for _, b := range fn.Blocks {
+				for _, in := range b.Instrs {
+					bo, ok := in.(*ssa.BinOp)
+					if !ok || (bo.Op != token.NEQ && bo.Op != token.EQL) || len(ifsOn(bo)) == 0 {
+						continue
+					}
+					a, okA := isLenCall(bo.X)
+					c, okC := isLenCall(bo.Y)
+					if !okA || !okC {
+						continue
+					}
+					if !((key(a) == key(q) && key(c) == key(pl)) || (key(a) == key(pl) && key(c) == key(q))) {
+						continue
+					}
+					if b == at || b.Dominates(at) {
+						return true
+					}
+				}
+			}
+			return false
+		}
+		seen := map[string]bool{}
+		for _, b := range fn.Blocks {
+			for _, in := range b.Instrs {
+				var q, idx ssa.Value
+				switch x := in.(type) {
+				case *ssa.IndexAddr:
+					q, idx = x.X, x.Index
+				case *ssa.Index:
+					q, idx = x.X, x.Index
+				default:
+					continue
+				}
+				for _, lp := range loops {
+					if lp.idx != idx || key(lp.p) == key(q) {
+						continue
+					}
+					k := key(q) + "|" + key(lp.p)
+					if seen[k] {
+						continue
+					}
+					seen[k] = true
+					n++
+					name := fnName(fn)
+					construct := "list " + exprTextOf(p, q) + " walked by the index of " + exprTextOf(p, lp.p)
+					if lenEq(q, lp.p, b) {
+						r.OK("R05.7", name, construct, p.Pos(in.Pos()), "the two lengths are compared before the walk")
+						continue
+					}
+					if why, ok := r057Confirmed[name]; ok {
+						// the exception must still look at a longer statement list
+						handlesLonger := false
+						for _, bb := range fn.Blocks {
+							for _, i2 := range bb.Instrs {
+								if bo, ok := i2.(*ssa.BinOp); ok && (bo.Op == token.GTR || bo.Op == token.LSS) {
+									a, okA := isLenCall(bo.X)
+									c, okC := isLenCall(bo.Y)
+									if okA && okC && ((key(a) == key(q) && key(c) == key(lp.p)) || (key(a) == key(lp.p) && key(c) == key(q))) {
+										handlesLonger = true
+									}
+								}
+							}
+						}
+						if handlesLonger {
+							r.Confirmed("R05.7", name, construct, p.Pos(in.Pos()), why)
+							continue
+						}
+					}
+					r.Bad("R05.7", name, construct, p.Pos(in.Pos()), "the statement's list is walked by the pattern's index without the two lengths having been compared: a statement with more entries than the pattern (extra VALUES rows, columns, expressions) is matched by a pattern that describes only its first entries, and an allow rule admits it")
+				}
+			}
+		}
+	}
+	if n < 12 {
+		r.Bad("R05.7", "acra-censor/common", "list walks", "-", fmt.Sprintf("%d pattern/statement list walks found, 14 confirmed by reading", n))
+	}
+}
+
+func init() {
+	mut("C05", "INSERT rows: pattern rows matched against the first rows of the statement only", "acra-censor/common/matching_logic.go", "		if len(queryValues) != len(patternValues) {\n			return false\n		}\n", "		if len(queryValues) < len(patternValues) {\n			return false\n		}\n", "R05.7", "areEqualInsertRows")
+	mut("C05", "select list: length comparison dropped", "acra-censor/common/matching_logic.go", "func areEqualGroupBy(query, pattern sqlparser.GroupBy) bool {\n	if len(query) != len(pattern) {\n		return false\n	}", "func areEqualGroupBy(query, pattern sqlparser.GroupBy) bool {\n	if len(query) < len(pattern) {\n		return false\n	}", "R05.7", "areEqualGroupBy")
 }
